@@ -466,6 +466,7 @@ func (f *Frame) callBuiltin(i *ssa.Call, b *ssa.Builtin, args []Val, st *State, 
 		c.assume(r, "(= "+c.slOff(res)+" 0)")
 		c.assume(r, "(forall ((k! Int)) (! (=> (and (<= 0 k!) (< k! "+c.slLen(s)+")) (= (select "+c.slArr(res)+" k!) (select "+c.slArr(s)+" (+ "+c.slOff(s)+" k!)))) :pattern ((select "+c.slArr(res)+" k!))))")
 		c.assume(r, "(forall ((k! Int)) (! (=> (and (<= 0 k!) (< k! "+c.slLen(el)+")) (= (select "+c.slArr(res)+" (+ "+c.slLen(s)+" k!)) (select "+c.slArr(el)+" (+ "+c.slOff(el)+" k!)))) :pattern ((select "+c.slArr(el)+" (+ "+c.slOff(el)+" k!)))))")
+		c.assume(r, "(forall ((k! Int)) (! (=> (and (<= "+c.slLen(s)+" k!) (< k! "+c.slLen(res)+")) (= (select "+c.slArr(res)+" k!) (select "+c.slArr(el)+" "+plus(c.slOff(el), "(- k! "+c.slLen(s)+")")+"))) :pattern ((select "+c.slArr(res)+" k!))))")
 		return res
 	case "delete":
 		m := args[0]
